@@ -2,5 +2,7 @@ import CheetahModel.Properties.C04
 #print axioms C04.base_batched_eq_map
 #print axioms C04.quad_batched_eq_map
 #print axioms C04.quad_no_crosstalk
-#print axioms C04.dipole_length_crosstalk
+#print axioms C04.dipole_batched_eq_map
+#print axioms C04.dipole_code_refines_model
+#print axioms C04.dipole_no_crosstalk
 #print axioms C04.cavity_T566_crosstalk
